@@ -9,7 +9,8 @@ from . import joseops as J
 from . import refimpl as R
 from . import keys as K
 
-ALGS = [("HS256", "oct256"), ("ES256", "EC:P-256"), ("EdDSA", "OKP:Ed25519"), ("RS256", "RSA2048")]
+ALGS = [("HS256", "oct256"), ("ES256", "EC:P-256"), ("EdDSA", "OKP:Ed25519"), ("RS256", "RSA2048"), ("HS384", "oct384"), ("PS384", "RSA2048"), ("ES384", "EC:P-384"),
+        ("ES512", "EC:P-521"), ("ES256K", "EC:secp256k1"), ("EdDSA", "OKP:Ed448"), ("HS512", "oct512"), ("RS512", "RSA2048"), ("PS256", "RSA2048"), ("PS512", "RSA2048"), ("RS384", "RSA2048")]
 P = {"honest1": b"payload one \x00\xff", "honest2": b"the second payload", "forged": b"the second payload", "alien": b"payload three"}
 
 
